@@ -107,14 +107,16 @@ fn c06b_lzma_new_any_params() {
 
 // C05-A: LZMA1 stream decoder over a source that ends inside the range coder payload: the read call during which the
 // source reported end-of-input must fail (it must not hand out bytes decoded from substituted zeros).
-//@ {"name":"c05a_lzma1_truncated_payload","props":["C05"],"obligation":"C05-A","timeout":1800,"mem_gb":9,"functions":["lzma_reader::LZMAReader::new","lzma_reader::LZMAReader::read_decode","decoder::LZMADecoder::decode","decoder::LiteralDecoder::decode","range_dec::RangeDecoder::decode_bit","range_dec::RangeDecoder::normalize","range_dec::RangeReader::read_u8 (impl for T: Read)"],"bounds":"lc=lp=pb=0, dictionary 4096, unknown size (end marker expected); source = 5 init bytes (first 0, 4 symbolic) + 0..=1 further symbolic bytes then end; one read call of 1 byte; first symbol forced to be a literal by the code value; unwind 12","assumes":["fresh probabilities (stub equals the real constructor, checked natively)"]}
+//@ {"name":"c05a_lzma1_truncated_payload","props":["C05"],"tier":"thorough","obligation":"C05-A","timeout":7200,"mem_gb":9,"functions":["lzma_reader::LZMAReader::new","lzma_reader::LZMAReader::read_decode","decoder::LZMADecoder::decode","decoder::LiteralDecoder::decode","range_dec::RangeDecoder::decode_bit","range_dec::RangeDecoder::normalize","range_dec::RangeReader::read_u8 (impl for T: Read)"],"bounds":"lc=lp=pb=0, dictionary 4096, unknown size (end marker expected); source = 5 init bytes (code 0, concrete: the first symbol is a literal) + 0..=1 further arbitrary bytes then end; one read call of 1 byte; unwind 12","assumes":["fresh probabilities (stub equals the real constructor, checked natively)"]}
 #[kani::proof]
 #[kani::unwind(12)]
 #[kani::stub(crate::decoder::LZMADecoder::new, crate::decoder::verif_stubs_dec::verif_fresh_decoder)]
 fn c05a_lzma1_truncated_payload() {
+    // The four code bytes are concrete (0): with a symbolic code CBMC walks every symbol kind (match, rep, direct
+    // bits ...) although only the literal path is feasible (> 25 min).  What stays symbolic is the byte the first
+    // normalisation pulls in - or its absence - and that is exactly what the obligation is about.
     let mut b: [u8; 6] = kani::any();
-    b[0] = 0;
-    kani::assume(b[1] < 0x40); // code < 2^30: the first is_match bit (prob 1/2) decodes to 0 = literal
+    b[0] = 0; b[1] = 0; b[2] = 0; b[3] = 0; b[4] = 0;
     let len: usize = kani::any();
     kani::assume(len == 5 || len == 6);
     let mut src = Src::<6>::new(b, len);
